@@ -141,6 +141,12 @@ func c06Replay(c *Case, realm RealmSetup, steps []scriptStep, k int, inside, rem
 		}
 		w.Wait()
 		_ = silent
+		// a client on an application-provided peer with unbuffered channels that has sent HELLO but takes
+		// its WELCOME only 5 s after the shutdown began: the join is in flight at the shutdown
+		welcoming := w.AddPuppet(sim.PuppetSpec{Kind: sim.Local, Unbuffered: true})
+		welcoming.Stall()
+		welcoming.Send(&wamp.Hello{Realm: wamp.URI(realm.Name), Details: wamp.Dict{"roles": sim.AllFeatures()}})
+		w.Wait()
 		// bystanders in the other realm
 		var by0, by1 *sim.Puppet
 		if removeRealm {
@@ -195,6 +201,10 @@ func c06Replay(c *Case, realm RealmSetup, steps []scriptStep, k int, inside, rem
 			joinAt += time.Millisecond
 		}
 		c.Hit("SD1")
+		go func() {
+			time.Sleep(5 * time.Second)
+			welcoming.Resume()
+		}()
 		returned := w.RunBlocked(shutdown, time.Second, 10*time.Second, time.Minute, 10*time.Minute)
 		if joiner != nil && returned {
 			w.Advance(2 * time.Millisecond) // the joiner's HELLO is sent 1 ms after the removal started
@@ -234,6 +244,29 @@ func c06Replay(c *Case, realm RealmSetup, steps []scriptStep, k int, inside, rem
 			}
 			if returned && !told && !closed {
 				c.Fail("SD3", "client neither told nor disconnected", "P%d (%s) was attached at the shutdown but saw neither GOODBYE wamp.close.system_shutdown nor its transport closing; last: %s", p, pu.Kind, obsString(pu.Log(), 3))
+			}
+		}
+		// the client whose join was in flight: once welcomed it is attached, and must then be told or disconnected
+		if returned {
+			w.Advance(6 * time.Second)
+			c.Hit("SD3")
+			welcomed, told, closed := false, false, false
+			for _, o := range welcoming.Log() {
+				switch m := o.Msg.(type) {
+				case *wamp.Welcome:
+					welcomed = true
+				case *wamp.Goodbye:
+					told = told || string(m.Reason) == "wamp.close.system_shutdown"
+				case *wamp.Abort:
+					told = true
+				}
+				closed = closed || o.Closed
+			}
+			if welcomed && !told && !closed {
+				c.Fail("SD3", "client welcomed during shutdown neither told nor disconnected", "a client whose WELCOME was in flight when the shutdown began took it 5 s later and then saw neither GOODBYE nor its transport closing: %s", obsString(welcoming.Log(), 4))
+			}
+			if !welcomed && !told && !closed {
+				c.Fail("SD3", "client joining during shutdown left without an answer", "a client that had sent HELLO before the shutdown saw neither WELCOME, ABORT nor its transport closing: %s", obsString(welcoming.Log(), 4))
 			}
 		}
 		// SD4: later attach attempts and realm operations fail cleanly
